@@ -50,7 +50,7 @@ def correspondence(ctx, gen_ok):
         out = f'({clist([czs(c) for c in pp.T.astype(int).tolist()])}, {cmat_nat(tt)}, {cnats(uu)})'
         reix_cases.append((inp, out, ('reix', nr, nc, len(uu))))
     # (b, c) restrict: new tags and the facet table of the restricted mesh
-    for k in range(ctx.n(36, 160)):
+    for k in range(ctx.n(40, 300)):
         name = ['MeshTri1', 'MeshQuad1', 'MeshTet1', 'MeshHex1'][k % 4]
         size = [2, 3] if k % 4 < 2 else [2, 2, 2]
         if k % 8 < 2:
@@ -215,7 +215,7 @@ def _state_json(st):
 
 def oracle(ctx):
     rng = np_seed(ctx, 81)
-    nchains = ctx.n(220, 1500)
+    nchains = ctx.n(400, 8000)
     for it in range(nchains):
         name = ['MeshTri1', 'MeshQuad1', 'MeshTet1', 'MeshHex1'][it % 4]
         m = O.tagged_mesh(name, rng)
@@ -272,7 +272,11 @@ def run(ctx):
     if gen_ok:
         ctx.compile_dyn(['gen/C18Gen.v'] + ctx.copy_dyn())
     ctx.prove()
-    correspondence(ctx, gen_ok)
+    try:
+        correspondence(ctx, gen_ok)
+    except Exception as e:      # noqa: BLE001 — the implementation raised while the cases were generated: the oracle
+        import traceback        # below looks for the concrete input; the tie is reported as broken in any case
+        ctx.broke('correspondence', f'case generation raised {type(e).__name__}', traceback.format_exc())
     oracle(ctx)
 
 
